@@ -585,6 +585,8 @@ type KBSpec struct {
 	// commit is applied but reported as uncertain; the retry goroutine's repair of it then takes part
 	// in the schedule as the last thread (program: one OpRewrite).
 	Rewrite bool
+	// RewriteDelete: the uncertain write is a delete instead of an update
+	RewriteDelete bool
 }
 
 func (n *KBNode) seqCall(q KReq, key []byte) (KResp, error) {
@@ -671,7 +673,11 @@ func (n *KBNode) RunCase(spec KBSpec) (*KCase, error) {
 		n.mu.Lock()
 		n.uncertainNext, n.adoptRetry, n.retryTh, n.retryCtl = true, true, nil, nil
 		n.mu.Unlock()
-		if r := n.Do(KReq{Op: OpUpdate, Val: []byte("unc"), Rev: st0[0].IdxRev}, n.Key(0)); !r.Err {
+		unc := KReq{Op: OpUpdate, Val: []byte("unc"), Rev: st0[0].IdxRev}
+		if spec.RewriteDelete {
+			unc = KReq{Op: OpDelete, Rev: st0[0].IdxRev}
+		}
+		if r := n.Do(unc, n.Key(0)); !r.Err {
 			return c, fmt.Errorf("the uncertain update was not reported as an error")
 		}
 		rwRev = cur + 1
@@ -1133,6 +1139,9 @@ func (n *KBNode) RunReadCase(r *Rand, fixedWrites []KReq, fixedInit []int) (*KRe
 		c.Reads = append(c.Reads, rd)
 	}
 	KBSeqPark(false)
+	if pm := n.panicMsg(); pm != "" {
+		return c, fmt.Errorf("%s", pm)
+	}
 	if !n.WaitRev(last, 2*time.Second) {
 		n.Dead = true
 		return c, fmt.Errorf("stalled after the sequencer was released")
